@@ -1696,9 +1696,11 @@ class Interp(Ops, Builtins, DynOps):
             # the callee may allocate: the set of allocated references grows (ensures may say what became allocated)
             r_ = z3.Int("r!al")
             new_alloc = ctx.fresh("alloc", ctx.alloc.sort())
-            ctx.assume(z3.ForAll([r_], z3.Implies(z3.Select(ctx.alloc, r_), z3.Select(new_alloc, r_))))
+            # facts about a fresh symbol: asserted unconditionally, also when the call sits under a merge guard (the allocation map in force after a
+            # merged conditional is this one on both sides; a guarded fact would leave it unrelated to the previous map where the guard is false)
+            ctx.pc.append(z3.ForAll([r_], z3.Implies(z3.Select(ctx.alloc, r_), z3.Select(new_alloc, r_))))
             for w in ctx.fresh_refs:
-                ctx.assume(z3.Select(new_alloc, w))
+                ctx.pc.append(z3.Select(new_alloc, w))
             ctx.alloc = new_alloc
             if c.returns is None:
                 res = NONE
